@@ -74,7 +74,9 @@ def run_case(params, prefix):
 def cases_for(tier):
     cases = []
     for spec in _exec.catalogue(tier):
-        cases.append({"spec": spec})
+        cases.append(_exec.case_of(spec))
+        if "bound" in cases[-1]:
+            continue  # the large programs run fault-free only
         jobs = _exec.program_jobs(spec)
         faults = []
         for j in jobs:
